@@ -1,0 +1,6 @@
+//go:build verif
+
+package complexity
+
+// VerifSafeAdd exposes safeAdd to the verification harness in /verif.
+func VerifSafeAdd(a, b int) int { return safeAdd(a, b) }
